@@ -18,7 +18,8 @@ RULE = ('Three series per case (single-pair routines use the first two) x window
         'property states is checked; the unbounded value is cross-checked against the reference. Non-trivial: the '
         'threshold (max_dist, or the Euclidean bound) is below the largest accumulated cost in the reference table '
         'of some pair, i.e. abandoning has something to cut; for the Python engine the number of inner-distance '
-        'evaluations saved is also counted with a counting inner-distance object.')
+        'evaluations saved is also counted with a counting inner-distance object.'
+        ' One case in 10 also runs the multiprocessing engines of the matrix routine (Python and C single-pair routine under a pool of 2, separate interpreter) under the same thresholds.')
 ASSUMPTIONS = ['thresholds within 1e-6 relative of the true distance are outside the property',
                'lengths <= 12, |values| <= 1e3, ndim <= 2',
                'use_pruning and max_dist are not combined']
